@@ -403,13 +403,34 @@ def _unit_environment() -> Dict[str, Any]:
     return _unit_env
 
 
-def run_wrapped_real(exts: List[dict], kind: str, wok: bool, hash_seed: int) -> dict:
+def run_wrapped_real(exts: List[dict], kind: str, wok: bool, hash_seed: int, before: Optional[List[dict]] = None) -> dict:
+    """before: the SAME extender objects were first configured as `before` (priority / behaviour / hooks per index) and used
+    for one call on another compute-framework object; then they are re-configured in place (public priority setter, wraps()
+    answering differently) to `exts` and the observed call is made: earlier uses of the objects must not matter."""
     from uuid import uuid4
     from mloda.user import ParallelizationMode
     from mloda_plugins.compute_framework.base_implementations.pyarrow.table import PyArrowTable
     env = _unit_environment()
     hv = slot_hashes(random.Random(hash_seed), len(exts))
-    objs = {make_ext(x["i"], x["prio"], x["beh"], x["hooks"], hv[j], via_setter=bool(x["i"] % 2)) for j, x in enumerate(exts)}
+    first = before if before is not None else exts
+    objs = {make_ext(x["i"], x["prio"], x["beh"], x["hooks"], hv[j], via_setter=bool(x["i"] % 2)) for j, x in enumerate(first)}
+    if before is not None:
+        cfw0 = PyArrowTable(ParallelizationMode.SYNC, frozenset(), uuid4(), function_extender=objs)
+        cfw0.data = env["data"]
+        FG0 = type("G20U0", (), {FG_METHOD[kind]: classmethod(lambda cls, data, features: env["result"] if kind == "calc" else True)})
+        try:
+            getattr(cfw0, KIND_METHOD[kind])(FG0, env["fs"])
+        except Exception:  # noqa: BLE001
+            pass
+        by_i = {o.i: o for o in objs}
+        for x in exts:
+            o = by_i[x["i"]]
+            o.beh, o.hook_names = x["beh"], list(x["hooks"])
+            if x["prio"] is not None:
+                o.priority = x["prio"]
+            elif hasattr(o, "_priority"):
+                del o._priority
+            o.count = 0
     cfw = PyArrowTable(ParallelizationMode.SYNC, frozenset(), uuid4(), function_extender=objs)
     cfw.data = env["data"]
 
@@ -439,7 +460,7 @@ def run_wrapped_real(exts: List[dict], kind: str, wok: bool, hash_seed: int) -> 
         order = [o.i for o in objs]
     return {"level": "wrapped", "exts": exts, "kind": kind, "wok": wok, "hash_seed": hash_seed, "order": order,
             "order_observed": ok_order, "activations": len(acts), "trace": trace, "res": list(res),
-            "stray": [list(e) for e in REC.loose]}
+            "stray": [list(e) for e in REC.loose], **({"before": before} if before is not None else {})}
 
 
 ALL_HOOKSETS = [[h for h, b in zip(HOOKS, bits) if b] for bits in itertools.product([0, 1], repeat=3)]
@@ -477,6 +498,17 @@ def wrapped_cases(rng: random.Random, big: bool) -> List[dict]:
     out = []
     for k, (exts, kind, wok) in enumerate(specs):
         out.append(run_wrapped_real(exts, kind, wok, rng.getrandbits(30)))
+    # the same extender OBJECTS re-configured between two uses (priority setter, other hooks / behaviour): the second use is
+    # judged like a first one
+    multi = [sp for sp in specs if len(sp[0]) >= 2]
+    for exts, kind, wok in rng.sample(multi, min(len(multi), 600 if big else 120)):
+        prios = [x["prio"] for x in exts]
+        before = [{"i": x["i"], "prio": rng.choice(PRIOS), "beh": rng.choice(["pass", x["beh"]]),
+                   "hooks": sorted(set(x["hooks"]) | {kind}) if rng.random() < 0.7 else [h for h in HOOKS if rng.random() < 0.5]}
+                  for x in exts]
+        if [b["prio"] for b in before] == prios and all(b["hooks"] == x["hooks"] for b, x in zip(before, exts)):
+            before[0]["prio"] = next(p for p in PRIOS if p != prios[0])
+        out.append(run_wrapped_real(exts, kind, wok, rng.getrandbits(30), before=before))
     return out
 
 
@@ -1049,7 +1081,7 @@ def replay(path: str) -> int:
     if r.get("level") == "composite":
         now = run_composite(r["exts"], r["wok"])
     elif r.get("level") == "wrapped":
-        now = run_wrapped_real(r["exts"], r["kind"], r["wok"], r["hash_seed"])
+        now = run_wrapped_real(r["exts"], r["kind"], r["wok"], r["hash_seed"], before=r.get("before"))
     elif r.get("level") == "e2e":
         now = run_e2e(r["exts"], r["nsteps"], r["mode"], tuple(r["fail_at"]) if r["fail_at"] else None, r["hash_seed"],
                       r.get("shape", "chain"), attach_lock=bool(r.get("attach_lock")))
